@@ -1,8 +1,11 @@
 package sx
 
 import (
+	"encoding/json"
 	"fmt"
 	"go/types"
+	"reflect"
+	"strings"
 
 	"gosx/smt"
 )
@@ -112,6 +115,60 @@ func (m *Machine) mergeDecoded(dst *Value, src Value, t types.Type, path string,
 		}
 		store(&ds[i], ss[i])
 	}
+}
+
+// jsonConcrete: json.Unmarshal of fully concrete bytes into a flat struct of
+// integers, strings and booleans (real JSON text met outside the Marshal /
+// Unmarshal pairs of the code under test, e.g. the claims of a token).
+func (m *Machine) jsonConcrete(s Slice, dst Iface) Value {
+	raw := make([]byte, s.Len)
+	for i := 0; i < s.Len; i++ {
+		t, ok := (*s.at(i)).(*smt.Term)
+		if !ok || !t.IsConst() {
+			m.unsupported("json.Unmarshal of symbolic bytes not produced by json.Marshal")
+		}
+		raw[i] = byte(t.Val)
+	}
+	var obj map[string]interface{}
+	if err := json.Unmarshal(raw, &obj); err != nil {
+		return m.newError("json: " + err.Error())
+	}
+	p, _ := dst.V.(*Value)
+	st, ok := deref(dst.T).Underlying().(*types.Struct)
+	if p == nil || !ok {
+		m.unsupported("json.Unmarshal of concrete text into %v", dst.T)
+	}
+	sv := (*p).(Struct)
+	for i := 0; i < st.NumFields(); i++ {
+		f := st.Field(i)
+		name := f.Name()
+		if tag := reflect.StructTag(st.Tag(i)).Get("json"); tag != "" {
+			name = strings.Split(tag, ",")[0]
+		}
+		v, present := obj[name]
+		if !present {
+			continue
+		}
+		switch x := v.(type) {
+		case float64:
+			if b, ok := f.Type().Underlying().(*types.Basic); ok && b.Info()&types.IsInteger != 0 {
+				sv[i] = m.C.Const(uint64(int64(x)), intWidth(b))
+				continue
+			}
+		case string:
+			if b, ok := f.Type().Underlying().(*types.Basic); ok && b.Info()&types.IsString != 0 {
+				sv[i] = x
+				continue
+			}
+		case bool:
+			if b, ok := f.Type().Underlying().(*types.Basic); ok && b.Info()&types.IsBoolean != 0 {
+				sv[i] = m.C.Bool(x)
+				continue
+			}
+		}
+		m.unsupported("json.Unmarshal of concrete text: member %s of kind %T", name, v)
+	}
+	return Iface{}
 }
 
 // ioYield is a scheduling point at an I/O stub (database call, message
@@ -537,11 +594,11 @@ func init() {
 		s := args[0].(Slice)
 		dst := args[1].(Iface)
 		if s.Len != 1 {
-			return m.newError("json: unexpected input")
+			return m.jsonConcrete(s, dst)
 		}
 		o, ok := (*s.at(0)).(*Opaque)
 		if !ok || o.Kind != "json" {
-			m.unsupported("json.Unmarshal of bytes not produced by json.Marshal")
+			return m.jsonConcrete(s, dst)
 		}
 		stored := o.Data.(Iface)
 		p := dst.V.(*Value)
